@@ -415,6 +415,51 @@ def malformed_one(ctx, pt, obs, pos, s):
             ctx.sig(('malformed', pos, fn_name, out), True)
 
 
+def long_strings(ctx, n):
+    """long valid proteoform strings (200..400 characters) cut at a random place (a VARCHAR cut, a broken line) or
+    with one character replaced: the parser must accept or reject them like any other string"""
+    rng = ctx.rng
+    mods = ['[Oxidation]', '[+15.995]', '[Phospho]', '[Acetyl]', '(?', ')', '[Formula:C2H3NO]', '{Glycan:Hex}', '<13C>',
+            '[U:Carbamidomethyl#g1(0.5)]', '[Unimod:4|INFO:x]', '^2', '/2[+2Na+]', '-[Amidated]', '[Acetyl]-']
+    for _ in range(n):
+        parts = []
+        while sum(len(x) for x in parts) < rng.randint(200, 400):
+            parts.append(''.join(rng.choice('ACDEFGHIKLMNPQRSTVWY') for _ in range(rng.randint(1, 12))))
+            if rng.random() < 0.6:
+                parts.append(rng.choice(mods))
+        s = ''.join(parts)
+        r = rng.random()
+        if r < 0.6:
+            s = s[:rng.randint(190, len(s))]
+        elif r < 0.8:
+            k = rng.randrange(len(s))
+            s = s[:k] + rng.choice('[](){}<>?-/^@#|:') + s[k + 1:]
+        yield s, tuple(s[:6])
+
+
+def avg_unavailable(ctx, pt):
+    """vocabulary entries that have a monoisotopic mass but neither an average mass nor a composition: asking for the
+    average mass must raise, not count the modification as zero"""
+    from vf.ref import obo
+    rows = [('XLMOD:' + e.id) for e in obo.xlmod() if e.mono is not None and e.avg is None and e.raw_comp is None]
+    rows += [('MOD:' + e.id) for e in obo.psimod() if e.mono is not None and e.avg is None and e.raw_comp is None]
+    for i, acc in enumerate(rows):
+        if not ctx.mine(i):
+            continue
+        s = POSITIONS[list(POSITIONS)[i % len(POSITIONS)]].format(v=acc)
+        ctx.begin({'clause': 'deferred', 'string': s, 'function': 'mass', 'monoisotopic': False})
+        try:
+            with_mod = pt.mass(s, monoisotopic=False)
+            ctx.violation('unresolvable-average-mass-silently-accepted', {'string': s, 'returned': with_mod})
+        except ValueError:
+            pass
+        except BaseException as e:
+            ctx.violation('unresolvable-mod-wrong-exception', {'string': s, 'function': 'mass(average)',
+                                                               'exception': type(e).__name__})
+        ctx.decided()
+        ctx.sig(('deferred-average-unavailable', acc.split(':')[0], i % len(POSITIONS)), True)
+
+
 def run(ctx):
     import peptacular as pt
     st = State(ctx)
@@ -426,7 +471,9 @@ def run(ctx):
         run_strings(ctx, st, pt, random_strings(ctx, ctx.n(60000, 1200000)), 'total-random')
         run_strings(ctx, st, pt, mutations(ctx, ctx.n(6000, 120000)), 'total-mutation')
         run_strings(ctx, st, pt, decorated(ctx, ctx.n(4000, 80000)), 'total-decorated')
+        run_strings(ctx, st, pt, long_strings(ctx, ctx.n(1500, 30000)), 'total-long')
         deferred(ctx, pt)
+        avg_unavailable(ctx, pt)
     finally:
         obs.stop()
     ctx.extra.update(obs.summary())
